@@ -174,11 +174,30 @@ def check_doc(ctx, schema, text, origin, rng, g_valid=None):
             ctx.nontrivial((text, srepr(variables)))
 
 
+REQUIRED_ARGUMENT_DOCS = [
+    # a field that needs an argument on one type and none on another type (Query.node(id: ID!) / User.node, Query.search(term:
+    # String!) / User.search): leaving the argument out must be rejected wherever the other field is used first or last
+    '{ me { node { id } } node { id } }', '{ node { id } me { node { id } } }',
+    '{ me { search { __typename } } search { __typename } }', '{ search { __typename } users { search { __typename } } }',
+    '{ me { ...A } ...B } fragment A on User { node { id } } fragment B on Query { node { id } }',
+    '{ ...B me { ...A } } fragment B on Query { node { id } } fragment A on User { node { id } }',
+    '{ me { ...A } ...B } fragment B on Query { search { __typename } } fragment A on User { search { __typename } }',
+    '{ users { node { id } best { node { id } } } x: node { id } y: node(id: 1) { id } }',
+    'mutation { setName(name: "n") { node { id } search { __typename } } rename { id } }',
+    '{ me { node { ... on User { search { __typename } } } } search(limit: 2) { __typename } }',
+]
+
+
 def run_shard(ctx):
     from .c02 import generated_schema
     rich_schema = rich()
     vocabs = {id(rich_schema): docmut.vocabulary(rich_schema)}
     rng = ctx.rng
+    if ctx.shard == 0:
+        for text in REQUIRED_ARGUMENT_DOCS:
+            ctx.case()
+            ctx.count("required_argument_documents")
+            check_doc(ctx, rich_schema, text, "same field name with and without a required argument", rng)
     for k in range(ctx.n(30000, 500000)):
         schema = rich_schema
         if k % 4 == 3:
@@ -186,9 +205,8 @@ def run_shard(ctx):
             if gs is not None:
                 schema = gs
                 ctx.count("documents_on_generated_schemas")
-        if id(schema) not in vocabs:
-            vocabs[id(schema)] = docmut.vocabulary(schema)
-        vocab = vocabs[id(schema)]
+        # (generated schemas live in a bounded cache: never key anything by their id())
+        vocab = vocabs[id(rich_schema)] if schema is rich_schema else docmut.vocabulary(schema)
         g = DocGen(schema, rng, ops=('query', 'query', 'mutation'), p_var=0.45, p_boundary=0.25)
         text = g.gen()
         origin = "G-doc"
